@@ -32,7 +32,7 @@ var clock int64
 
 func main() {
 	sdk := flag.String("sdk", "v2", "v1 | v2")
-	scenario := flag.String("scenario", "counter", "counter | putonce | mixed | lifecycle")
+	scenario := flag.String("scenario", "counter", "counter | putonce | mixed | lifecycle | createrace | indexreads")
 	seed := flag.Int64("seed", 1, "seed")
 	gor := flag.Int("g", 6, "goroutines")
 	n := flag.Int("n", 8, "operations per goroutine")
@@ -120,6 +120,45 @@ func main() {
 		return map[string]interface{}{"op": op, "c": "c1", "t": t}
 	}
 	_ = path
+	// full CreateTable with two global indexes and a local one (more work between "does it exist" and "register it")
+	createFull := func(t string) map[string]interface{} {
+		ad := func(n string) map[string]interface{} { return map[string]interface{}{"n": n, "ty": "S"} }
+		rng := func(n string) map[string]interface{} { return map[string]interface{}{"some": n != "", "n": n} }
+		ix := func(name, hk, rk string) map[string]interface{} {
+			return map[string]interface{}{"name": name, "hash": hk, "range": rng(rk), "proj": "ALL", "thr": false}
+		}
+		return map[string]interface{}{"op": "CreateTable", "c": "c1", "t": t, "hash": map[string]interface{}{"n": "h", "ty": "S"},
+			"range": map[string]interface{}{"some": true, "n": "r", "ty": "S"}, "billing": "PAY_PER_REQUEST", "thr": false,
+			"attrs": []interface{}{ad("h"), ad("r"), ad("g"), ad("s"), ad("l")},
+			"gsis": []interface{}{ix("gix", "g", ""), ix("gsx", "g", "s")}, "lsis": []interface{}{ix("lix", "h", "l")}}
+	}
+	putG := func(t, k, r, g string, v int) map[string]interface{} {
+		return map[string]interface{}{"op": "PutItem", "c": "c1", "t": t, "item": map[string]interface{}{"h": S(k), "r": S(r), "g": S(g), "s": S(r), "l": S(r), "v": N(v)},
+			"cond": nocond, "names": map[string]interface{}{}, "values": map[string]interface{}{}, "rvf": false}
+	}
+	noLimit := map[string]interface{}{"some": false, "n": 0}
+	noEsk := map[string]interface{}{"some": false, "k": map[string]interface{}{}}
+	ixScan := func(t, index string) map[string]interface{} {
+		return map[string]interface{}{"op": "Scan", "c": "c1", "t": t, "kind": "scan", "index": map[string]interface{}{"some": true, "n": index},
+			"filter": nocond, "names": map[string]interface{}{}, "values": map[string]interface{}{}, "limit": noLimit, "esk": noEsk}
+	}
+	ixQuery := func(t, index, g string, fwd bool) map[string]interface{} {
+		return map[string]interface{}{"op": "Query", "c": "c1", "t": t, "kind": "query", "index": map[string]interface{}{"some": true, "n": index},
+			"kc": map[string]interface{}{"k": "cmp", "op": "=", "l": path("g"), "r": val(":g")}, "filter": nocond, "names": map[string]interface{}{},
+			"values": map[string]interface{}{":g": S(g)}, "fwd": fwd, "limit": noLimit, "esk": noEsk}
+	}
+	var arrived, generation int64
+	barrier := func() { // cyclic spin barrier of the *gor worker goroutines: all leave within the same few hundred nanoseconds
+		gen := atomic.LoadInt64(&generation)
+		if atomic.AddInt64(&arrived, 1) == int64(*gor) {
+			atomic.StoreInt64(&arrived, 0)
+			atomic.AddInt64(&generation, 1)
+			return
+		}
+		for atomic.LoadInt64(&generation) == gen {
+			runtime.Gosched()
+		}
+	}
 
 	// sequential prefix
 	do(0, table("AddTable", "tbl1"))
@@ -176,6 +215,60 @@ func main() {
 					do(g, table("DescribeTable", "tbl1"))
 				case 7:
 					do(g, put(k, g*100+i, map[string]interface{}{"k": "fn", "f": "attribute_not_exists", "args": []interface{}{path("h")}}))
+				}
+			})
+		}
+	case "createrace": // round i: every goroutine creates table r<i> at the same moment; exactly one may win, and its item must survive
+		for g := 1; g <= *gor; g++ {
+			g := g
+			run(g, func(i int) {
+				t := fmt.Sprintf("rt%d", i)
+				barrier()
+				ev := createFull(t)
+				raw, _ := json.Marshal(ev)
+				e, _ := h.ParseEvent(raw)
+				inv := atomic.AddInt64(&clock, 1)
+				r := h.Exec(p, e)
+				ret := atomic.AddInt64(&clock, 1)
+				mu.Lock()
+				hist = append(hist, entry{G: g, Inv: inv, Ret: ret, E: raw, R: r})
+				mu.Unlock()
+				if r.Err == "none" {
+					do(g, putG(t, "k", fmt.Sprint(g), "p", g))
+				}
+				barrier()
+				if g == 1 {
+					do(g, map[string]interface{}{"op": "Scan", "c": "c1", "t": t, "kind": "scan", "index": map[string]interface{}{"some": false, "n": ""},
+						"filter": nocond, "names": map[string]interface{}{}, "values": map[string]interface{}{}, "limit": noLimit, "esk": noEsk})
+				}
+			})
+		}
+	case "indexreads": // reads through secondary indexes at the same time (and one writer): reads must not disturb one another
+		do(0, createFull("tix"))
+		for i := 0; i < 12; i++ {
+			do(0, putG("tix", fmt.Sprintf("k%d", i%4), fmt.Sprintf("r%02d", i), []string{"p", "q"}[i%2], i))
+		}
+		for g := 1; g <= *gor; g++ {
+			g := g
+			run(g, func(i int) {
+				r := seeds[g]
+				if g == 1 {
+					if r.Intn(2) == 0 {
+						do(g, putG("tix", "k9", fmt.Sprintf("w%02d", i), "p", 1000+i))
+					} else {
+						do(g, map[string]interface{}{"op": "GetItem", "c": "c1", "t": "tix", "key": map[string]interface{}{"h": S("k0"), "r": S("r00")}})
+					}
+					return
+				}
+				switch r.Intn(4) {
+				case 0:
+					do(g, ixScan("tix", "gix"))
+				case 1:
+					do(g, ixQuery("tix", "gix", []string{"p", "q"}[r.Intn(2)], r.Intn(2) == 0))
+				case 2:
+					do(g, ixQuery("tix", "gsx", []string{"p", "q"}[r.Intn(2)], r.Intn(2) == 0))
+				case 3:
+					do(g, ixScan("tix", "lix"))
 				}
 			})
 		}
